@@ -76,6 +76,13 @@ def _variants(pid):
         with open(tw) as fh:
             for t in json.load(fh):
                 out.append(("twin", "rewrite " + t["name"], t, False))
+    td = os.path.join(VERIF, "twins")
+    if os.path.isdir(td):
+        for n in sorted(os.listdir(td)):
+            pp = os.path.join(td, n, "patch.diff")
+            if n.startswith(pid + "-") and os.path.exists(pp):
+                with open(pp) as fh:
+                    out.append(("twin", "refactoring " + n, fh.read(), False))
     for line in load_known().get("fixed", []):
         m = re.match(r"fixed: property=(\S+) ([0-9a-f]{7,40}) ", line)
         if not m or m.group(1) != pid:
